@@ -59,7 +59,8 @@ pub fn read_main(a: &Args) {
         }
         rep.sample(json!({"id": rec["id"], "fmt": fmt, "duplicate_ids_in_file": ndup}));
         let h = held(&dom);
-        let hs: HashSet<UniqueId> = h.iter().copied().collect();
+        // (ids are compared field by field: the type's own == / Hash belong to the code under test)
+        let hs: HashSet<(u32, u32, i64)> = h.iter().map(|u| (u.index(), u.time(), u.random())).collect();
         if hs.len() != h.len() {
             rep.violation(
                 &format!("C12:decoded-duplicate:{}", fmt),
@@ -68,7 +69,7 @@ pub fn read_main(a: &Args) {
                 J::Null,
             );
         }
-        let book: HashSet<UniqueId> = dom.verif_unique_ids().into_iter().collect();
+        let book: HashSet<(u32, u32, i64)> = dom.verif_unique_ids().iter().map(|u| (u.index(), u.time(), u.random())).collect();
         if book != hs {
             rep.violation(
                 &format!("C12:decoded-bookkeeping:{}", fmt),
@@ -133,7 +134,7 @@ pub fn now_main(a: &Args) {
     for h in handles {
         all.extend(h.join().expect("generator thread panicked"));
     }
-    let set: HashSet<UniqueId> = all.iter().copied().collect();
+    let set: HashSet<(u32, u32, i64)> = all.iter().map(|u| (u.index(), u.time(), u.random())).collect();
     rep.evaluations = threads as u64;
     rep.add("uniqueid_now.calls", all.len() as u64);
     rep.add("uniqueid_now.threads", threads as u64);
